@@ -864,3 +864,29 @@ Fixpoint nodupb (l : list nat) : bool :=
 Definition ex_tops : list top :=
   [TSel 0 (SIdx [2]); TSel 0 (SIdx [1; 2; 3]); TSel 0 (SIdx []); TSel 0 (SMask [true; true; true; true]);
    TSel 0 (SIdx [-1]); TSel 0 (SIdx [0; 1; 2; 3]); TCopy 0 None; TSet 0 (SIdx [0; 3]) 1; TSel 0 (SIdx [4])].
+
+(* ---------------------------------------------------------------- extension: DataField._calc_static_values
+   (trialdata.py:260-305).  The user function returns something that is not an ndarray (TypeError) or an array - a new
+   one or the array of an existing field.  A source-event data field (is_srcevt_data) is kept in the DataField object
+   after the shape test against tdm.get_n_values(); any other static data field is written into the trial events
+   array by item assignment. *)
+Inductive fret := RNotArray | RArr (v : fval).
+
+Definition calc_static (t : tloc) (f : fid) (r : fret) (srcevt : bool) (n_values : Z) : M unit :=
+  match r with
+  | RNotArray => raise TypeError
+  | RArr fv =>
+      mdo b <-- (match fv with FFresh v => alloc v | FAlias g => t_getitem t g end) ;;
+      if srcevt then
+        mdo v <-- rdbuf b ;;
+        if sv_shape_bad n_values (zlen v) then raise ValueError else ret tt        (* self._values = values *)
+      else t_setitem t f b                                                          (* tdm.events[name] = values *)
+  end.
+
+(* observation for the correspondence: one events table, one static data field *)
+Definition static_obs (tab : list (fid * list Z)) (f : fid) (r : fret) (srcevt : bool) (n_values : Z) :=
+  let '(s0, r0) := build_one tab empty_store in
+  match r0 with
+  | Err e => (Err e, reg_obs s0 [])
+  | Ok t => let '(s1, st1) := calc_static t f r srcevt n_values s0 in (st1, reg_obs s1 [t])
+  end.
